@@ -4,6 +4,25 @@
 use crate::core::Ctx;
 use serde_json::Value;
 
+pub mod c01;
+pub mod c02;
+pub mod c03;
+pub mod c04;
+pub mod c05;
+pub mod c06;
+pub mod c07;
+pub mod c08;
+pub mod c09;
+pub mod c10;
+pub mod c11;
+pub mod c12;
+pub mod c13;
+pub mod c14;
+pub mod c15;
+pub mod c16;
+pub mod c17;
+pub mod c18;
+pub mod c19;
 pub mod c20;
 
 pub type RunFn = fn(&mut Ctx);
@@ -11,6 +30,25 @@ pub type ReplayFn = fn(&mut Ctx, &Value);
 
 pub fn lookup(id: &str) -> Option<(&'static str, RunFn, ReplayFn)> {
     Some(match id {
+        "C01" => ("C01", c01::run as RunFn, c01::replay as ReplayFn),
+        "C02" => ("C02", c02::run as RunFn, c02::replay as ReplayFn),
+        "C03" => ("C03", c03::run as RunFn, c03::replay as ReplayFn),
+        "C04" => ("C04", c04::run as RunFn, c04::replay as ReplayFn),
+        "C05" => ("C05", c05::run as RunFn, c05::replay as ReplayFn),
+        "C06" => ("C06", c06::run as RunFn, c06::replay as ReplayFn),
+        "C07" => ("C07", c07::run as RunFn, c07::replay as ReplayFn),
+        "C08" => ("C08", c08::run as RunFn, c08::replay as ReplayFn),
+        "C09" => ("C09", c09::run as RunFn, c09::replay as ReplayFn),
+        "C10" => ("C10", c10::run as RunFn, c10::replay as ReplayFn),
+        "C11" => ("C11", c11::run as RunFn, c11::replay as ReplayFn),
+        "C12" => ("C12", c12::run as RunFn, c12::replay as ReplayFn),
+        "C13" => ("C13", c13::run as RunFn, c13::replay as ReplayFn),
+        "C14" => ("C14", c14::run as RunFn, c14::replay as ReplayFn),
+        "C15" => ("C15", c15::run as RunFn, c15::replay as ReplayFn),
+        "C16" => ("C16", c16::run as RunFn, c16::replay as ReplayFn),
+        "C17" => ("C17", c17::run as RunFn, c17::replay as ReplayFn),
+        "C18" => ("C18", c18::run as RunFn, c18::replay as ReplayFn),
+        "C19" => ("C19", c19::run as RunFn, c19::replay as ReplayFn),
         "C20" => ("C20", c20::run as RunFn, c20::replay as ReplayFn),
         _ => return None,
     })
